@@ -14,6 +14,8 @@ Rules (all eight point types)
   N6  neighbour coverage (E-STEP on the loop control): each loop of planeEstimation_ that subscripts neighborIndexes_ is run, control only, for
       k = 3, 4, 7, 30; the subscripts it produces must be exactly 0..k-1, each once (a stride-2 loop without a remainder step drops the
       last neighbour for odd k)
+  N10 orientation helper by value (E-STEP): flipNormalTowardOriginCoordinate is evaluated on points, unit eigenvectors (aligned and oblique, facing either way) and - for the homogeneous point
+      types - previous values of the entry compute() does not write, at three scales of the cloud: the cartesian part must come back as +-the eigenvector with a non-positive projection on the point
   N5  no early exit inside the quantifier: a guard in front of the per-point loop that returns is evaluated (E-STEP) on witness sizes
       N = k+1, k+2, 5k for k = 3, 10, 30 (the quantifier starts at clouds of k+1 points); if it leaves for one of them no normal is written
 Not decided: unit length, exactness on planes, rotational equivariance (numerical properties of the eigen-decomposition);
@@ -25,7 +27,7 @@ from .C14 import stmts_sx
 LEVEL = 'other'
 UNITS = ['src/pointset/algorithms/NormalAndCurvatureEstimation.cpp', 'src/pointset/KdTree.cpp']
 ENGINES = 'E-STATE + E-SIB over romea-facts'
-TECHNIQUE = 'eigenvectors overwritten after the decomposition under a relative-gap threshold above the bound of the quantifier, result reuse keyed on a scalar signature of an index set, stored k against the constructor argument for k = 3..30, tolerance return in front of the eigen-decomposition, flip ordered against the object it acts on, closed-form eigen solver contract fact, sweep of every function read (and its in-repo callees) for frozen function-local statics, single precision inside double computations, lossy copy constructors, presence- or argument-keyed member caches, reference members bound to constructor arguments, loop accumulators that are members, members derived in the constructor and not refreshed by setters, results returned by reference to a member buffer, members filled from an argument under a condition that ignores it, hidden non-virtual base members, self-bound reference members, reductions that accumulate in float; coverage of the k neighbour indexes by each accumulation loop (loop control evaluated for k = 3, 4, 7, 30), identity-keyed kd-tree cache fact; E-STEP evaluation of guards in front of the per-point loop on witness cloud sizes (no early exit inside the quantifier), entries copied into the normal vs CARTESIAN_DIM; must-pass-through per loop iteration on the instantiated AST (flip after every normal write), structural index agreement of eigenvector/eigenvalue uses, sibling agreement of specialisations'
+TECHNIQUE = 'orientation helper evaluated (E-STEP) on points, unit eigenvectors and previous buffer entries of the homogeneous point types at three scales, inlined orientation factor on projections +1/-1/0, eigenvectors overwritten after the decomposition under a relative-gap threshold above the bound of the quantifier, result reuse keyed on a scalar signature of an index set, stored k against the constructor argument for k = 3..30, tolerance return in front of the eigen-decomposition, flip ordered against the object it acts on, closed-form eigen solver contract fact, sweep of every function read (and its in-repo callees) for frozen function-local statics, single precision inside double computations, lossy copy constructors, presence- or argument-keyed member caches, reference members bound to constructor arguments, loop accumulators that are members, members derived in the constructor and not refreshed by setters, results returned by reference to a member buffer, members filled from an argument under a condition that ignores it, hidden non-virtual base members, self-bound reference members, reductions that accumulate in float; coverage of the k neighbour indexes by each accumulation loop (loop control evaluated for k = 3, 4, 7, 30), identity-keyed kd-tree cache fact; E-STEP evaluation of guards in front of the per-point loop on witness cloud sizes (no early exit inside the quantifier), entries copied into the normal vs CARTESIAN_DIM; must-pass-through per loop iteration on the instantiated AST (flip after every normal write), structural index agreement of eigenvector/eigenvalue uses, sibling agreement of specialisations'
 EXPLANATION = ('Each compute() overload of each instantiation is read as an ordered statement list: the flip call post-dominates the normal write inside the iteration, delegating overloads pass their '
                'arguments through, eigenvector/eigenvalue indexes and the neighbour bookkeeping are matched structurally.')
 ASSUMPTIONS = ['Eigen::SelfAdjointEigenSolver returns eigenvalues in increasing order and column-major eigenvectors']
@@ -148,14 +150,14 @@ def _vec_step():
 
 
 def check_flip_helper(fx, R):
-    """N7 (E-STEP): the orientation helper, evaluated on concrete points and unit normals.  The normal handed to it holds the eigenvector in its CARTESIAN entries only (compute() copies CARTESIAN_DIM
+    """N10 (E-STEP): the orientation helper, evaluated on concrete points and unit normals.  The normal handed to it holds the eigenvector in its CARTESIAN entries only (compute() copies CARTESIAN_DIM
     entries); any further entry of the point type (the homogeneous coordinate) still holds what the caller's buffer held - 1 for a NormalSet built the ordinary way, NormalSet<PointType>(N).  After the
     helper the cartesian part of the normal must be +-the eigenvector with a non-positive projection on the point, whatever the unit of length of the cloud."""
     import re
     from .. import mini
     fs = sorted((g for g in fx.functions.values() if g.get('name') == 'flipNormalTowardOriginCoordinate' and g.get('body') is not None and len(g.get('params', [])) == 2), key=lambda g: g['q'])
     if not fs:
-        R.undecided('N7', 'flipNormalTowardOriginCoordinate', 'no instantiation of the orientation helper found (the orientation may be written in place: judged by N1)')
+        R.undecided('N10', 'flipNormalTowardOriginCoordinate', 'no instantiation of the orientation helper found (the orientation may be written in place: judged by N1)')
         return
     for g in fs:
         R.used(g)
@@ -168,7 +170,7 @@ def check_flip_helper(fx, R):
             D = int(hh.group(1))
             SZ = D + 1
         else:
-            R.undecided('N7', 'flipNormalTowardOriginCoordinate<%s>' % ts[:60], 'point type not recognised')
+            R.undecided('N10', 'flipNormalTowardOriginCoordinate<%s>' % ts[:60], 'point type not recognised')
             continue
         inst = 'flipNormalTowardOriginCoordinate<%s>' % short_fn(ts.replace('const ', '').rstrip(' &'))
         loc = fx.rel(g['loc'])
@@ -228,13 +230,13 @@ def check_flip_helper(fx, R):
                        '|normal . point| is below it (a wall closer than one unit of length).' % (SZ, D, D, D, bad[2], bad[2]))
             elif bad[3] != 1.0:
                 hom = ' The same cloud as for the other witnesses, %s: the property has no unit of length, and the helper compares a length of the cloud with an absolute number.' % bad[1]
-            R.violated('N7', 'flipNormalTowardOriginCoordinate:%s' % ('homogeneous-entry' if (bad[2] not in (None, 0.0)) else 'orientation'), '%s [%s].%s' % (bad[0], inst, hom), loc, 'E-STEP')
+            R.violated('N10', 'flipNormalTowardOriginCoordinate:%s' % ('homogeneous-entry' if (bad[2] not in (None, 0.0)) else 'orientation'), '%s [%s].%s' % (bad[0], inst, hom), loc, 'E-STEP')
         elif why and not n_w:
-            R.undecided('N7', inst, 'orientation helper not evaluable: %s' % why)
+            R.undecided('N10', inst, 'orientation helper not evaluable: %s' % why)
         elif why:
-            R.undecided('N7', inst, 'orientation helper not evaluable on some witnesses: %s' % why)
+            R.undecided('N10', inst, 'orientation helper not evaluable on some witnesses: %s' % why)
         else:
-            R.holds('N7', inst, '%d witness (point, unit eigenvector%s) pairs at three scales: the cartesian part comes back as +-the eigenvector with a non-positive projection on the point' % (
+            R.holds('N10', inst, '%d witness (point, unit eigenvector%s) pairs at three scales: the cartesian part comes back as +-the eigenvector with a non-positive projection on the point' % (
                 n_w, ', previous homogeneous entry' if SZ > D else ''), loc, 'E-STEP')
 
 
